@@ -69,6 +69,12 @@ def run_controls():
     strip_misuse(ctx, o)
     expect('strip-prefix', o, 'API', 'segment.lstrip(prefix)')
     expect('strip-charset', o, 'API', "line.strip(' \\n')", want=False)
+    o = Obligations('CTL')
+    sweeps.dtype_inherit(ctx, o, ['ctl2.'])
+    expect('dtype-counter', o, 'DTYPE', 'buffer `out` typed like `labels`')
+    if any(x.verdict == VIOLATED and x.func == 'ctl2.values_like_labels' for x in o.items):
+        bad.append('DTYPE fired on a buffer that only receives elements of its source')
+    n += 1
     from .props.c03 import putmask_values
     o = Obligations('CTL')
     putmask_values(ctx, o, prefix='ctl2.')
